@@ -330,12 +330,21 @@ Example C11_tie_goes_to_frank :
   = Ok (mk Frank (1#2) (Finite 5)).
 Proof. vm_compute. reflexivity. Qed.
 
-(* non-vacuity: on the library grid, with data and three distinct cdf oracles, a non-Frank candidate wins *)
+(* non-vacuity: with data and three distinct cdf oracles a non-Frank candidate wins; on the library grid the
+   hypotheses of C11_nonpositive / C11_total / C11_empirical_wellformed are satisfiable and the 50-point
+   empirical tails are computed without IndexError *)
 Example C11_nonvacuous :
-  gen_select_copula_lib demo_cdf (Some (1#2, Finite 5)) demo_UV = Ok (mk Clayton (1#2) (Finite (4#2))) /\
+  gen_select_copula demo_cdf (Some (1#2, Finite 5)) demo_UV demo_base = Ok (mk Clayton (1#2) (Finite (4#2))) /\
   gen_select_copula_lib demo_cdf (Some (-1#2, Finite (-5))) demo_UV = Ok (mk Frank (-1#2) (Finite (-5))) /\
-  demo_UV <> [].
-Proof. split; [vm_compute; reflexivity|]. split; [vm_compute; reflexivity|discriminate]. Qed.
+  demo_UV <> [] /\
+  match gen_compute_empirical demo_UV gen_base with
+  | Ok e => (length (z_left e), length (L e), length (z_right e), length (R e)) = (40, 40, 40, 40)%nat
+  | Err _ => False
+  end.
+Proof.
+  split; [vm_compute; reflexivity|]. split; [vm_compute; reflexivity|]. split; [discriminate|].
+  vm_compute. reflexivity.
+Qed.
 
 Print Assumptions C11_bridge_select_copula.
 Print Assumptions C11_calibrated.
